@@ -12,6 +12,7 @@ import (
 	"net/http/httptest"
 	"os"
 	"path/filepath"
+	"sync/atomic"
 	"testing"
 	"time"
 
@@ -21,6 +22,8 @@ import (
 	"golang.org/x/telemetry/internal/verif/vstats"
 	"pgregory.net/rapid"
 )
+
+var c05rStatus, c05rRequests atomic.Int64
 
 var c05rStray = []string{"a.json", ".json", "x.json", "local.json", "local..json", "12345678.json", "123456789.json", "2024-13-45.json", "0000-00-00.json",
 	"local.2024-01-01.json", "local.x.json", "abc.v1.count", ".v1.count", "x.v1.count.json", "weekends", "upload.token", "notes.txt", "2024-01-01.json.lock"}
@@ -32,6 +35,13 @@ func TestVerifC05RunExported(t *testing.T) {
 			Counters: []telemetry.CounterConfig{{Name: "a/b", Rate: 1}, {Name: "chart:{b1,b2,b3}", Rate: 1}}, Stacks: []telemetry.CounterConfig{{Name: "stk", Rate: 1, Depth: 4}}}}}
 	env := configtest.LocalProxyEnv(t, cfg, "v1.2.3")
 	base := t.TempDir()
+	// one listening server for the whole test (a server per case exhausts the ephemeral ports under load)
+	srv := httptest.NewServer(http.HandlerFunc(func(w http.ResponseWriter, r *http.Request) {
+		io.Copy(io.Discard, r.Body)
+		c05rRequests.Add(1)
+		w.WriteHeader(int(c05rStatus.Load()))
+	}))
+	defer srv.Close()
 	n := 0
 	rapid.Check(t, func(t *rapid.T) {
 		n++
@@ -83,13 +93,8 @@ func TestVerifC05RunExported(t *testing.T) {
 		mode := rapid.SampledFrom([]string{"on 2000-01-01", "on 2000-01-01", "on", "local", "off", "On", "", "on  2000-01-01", "on 2000-1-1"}).Draw(t, "mode")
 		os.WriteFile(filepath.Join(dir, "mode"), []byte(mode), 0666)
 		status := rapid.SampledFrom([]int{200, 200, 500, 400, 429, 302}).Draw(t, "status")
-		requests := 0
-		srv := httptest.NewServer(http.HandlerFunc(func(w http.ResponseWriter, r *http.Request) {
-			io.Copy(io.Discard, r.Body)
-			requests++
-			w.WriteHeader(status)
-		}))
-		defer srv.Close()
+		c05rStatus.Store(int64(status))
+		c05rRequests.Store(0)
 		type result struct {
 			err   error
 			panic any
@@ -109,7 +114,7 @@ func TestVerifC05RunExported(t *testing.T) {
 			if res.panic != nil {
 				t.Fatalf("%s: a panic escaped upload.Run: %v", desc, res.panic)
 			}
-			vstats.Case(desc, len(strays) > 0, fmt.Sprintf("err:%v", res.err != nil), fmt.Sprintf("requests:%d", min(requests, 3)))
+			vstats.Case(desc, len(strays) > 0, fmt.Sprintf("err:%v", res.err != nil), fmt.Sprintf("requests:%d", min(int(c05rRequests.Load()), 3)))
 		case <-time.After(60 * time.Second):
 			t.Fatalf("%s: upload.Run did not return within 60 s", desc)
 		}
